@@ -59,6 +59,46 @@ fn main() {
                 Err(_) => println!("{}", serde_json::to_string_pretty(&rf.case).unwrap()),
             }
         }
+        "gen" => {
+            // vcheck gen <needle> <Ecode|ok|any> [n]: developer aid — print generated programs (closure-heavy
+            // preset, pseudo-random bytes) whose source contains <needle> and whose compilation
+            // ends with the given diagnostic code (or is accepted)
+            let needle = args.get(1).cloned().unwrap_or_default();
+            let want = args.get(2).cloned().unwrap_or_else(|| "any".to_string());
+            let n: usize = args.get(3).and_then(|s| s.parse().ok()).unwrap_or(3);
+            let preset = gens::proggen::Preset { closures: 12, shadowing: true, returns: 3, coalesce: 2, ..gens::proggen::BASE };
+            let mut x: u64 = 0x9e37_79b9_7f4a_7c15;
+            let mut shown = 0;
+            for _ in 0..200_000 {
+                let bytes: Vec<u8> = (0..300)
+                    .map(|_| {
+                        x ^= x << 13;
+                        x ^= x >> 7;
+                        x ^= x << 17;
+                        (x >> 24) as u8
+                    })
+                    .collect();
+                let case = gens::proggen::build(&bytes, preset);
+                let src = gens::prog::program_src(&case.prog);
+                if !src.contains(&needle) {
+                    continue;
+                }
+                let verdict = match vrlx::compile(&src) {
+                    Ok(_) => "ok".to_string(),
+                    Err(d) => format!("E{}", vrlx::diag_codes(&d).first().copied().unwrap_or(0)),
+                };
+                if want == "any" || want == verdict {
+                    println!("--- {verdict}\n{src}");
+                    if let Err(d) = vrlx::compile(&src) {
+                        println!("# {}", vrlx::diag_summary(&d));
+                    }
+                    shown += 1;
+                    if shown >= n {
+                        break;
+                    }
+                }
+            }
+        }
         "describe" => {
             let v: Vec<serde_json::Value> =
                 props::all().iter().map(|p| serde_json::json!({"id": p.id, "rule": p.rule, "note": p.note})).collect();
